@@ -41,7 +41,8 @@ TraceFixture ==
 
 TraceDetect ==
     /\ IsEvent("Detect")
-    /\ pc = "open" /\ det = "none" /\ yielded = 0           \* Detect precedes the first Yield
+    /\ pc = "open" /\ yielded = 0                           \* Detect precedes the first Yield
+    /\ det \in {"none", IF Ev.v THEN "T" ELSE "F"}         \* (asking twice is harmless, changing the answer is not)
     /\ Must(c) => Ev.v
     /\ MustNot(c) => ~Ev.v
     /\ det' = IF Ev.v THEN "T" ELSE "F"
